@@ -607,7 +607,7 @@ func checkC10(c *Ctx) error {
 		r := c.R.Derive("batch", bi)
 		var cases []*PCase
 		for len(cases) < 32 {
-			pc := dr.draw(r, drawOpts{errPct: 15, bounds: 10})
+			pc := dr.draw(r, drawOpts{errPct: 15, bounds: 10, large: true})
 			if pc == nil {
 				break
 			}
